@@ -135,6 +135,24 @@ CLAIMS = {
                 "(v2 < v1 for v1 > v2) are taken to agree with Python's own; Decimal/Fraction/complex operands are covered "
                 "only as opaque values; temporarily_disable is C05's, update_predicate_distances C11's.",
     },
+    "C14": {
+        "category": "proof",
+        "text": "Unbounded proof on the real comparators and operators: compare/PreferenceSortingComparator.compare/"
+                "DominanceComparator.compare return -1/0/1 exactly for 'preferred' resp. Pareto dominance; _get_zero_front "
+                "returns, for every uncovered goal, a solution at least as good (fitness, then length) as every solution, "
+                "ranked 0; fast_epsilon_dominance_assignment leaves every distance in [0, 1) and never divides by zero; "
+                "random and tournament selection return an index inside the population (ValueError only for an empty one); "
+                "RankSelection.get_index is inside the population for every bias in (1, 2].",
+        "note": "fitness/length are pure observations FIT/LEN, fitness not NaN (C10/C12); the lower bound of rank selection "
+                "and the absence of ValueError are discharged for real arithmetic only (A-FLOAT-R) - its upper bound holds "
+                "by the final min() whatever the rounding; _get_non_dominated_solutions and compute_ranking_assignment "
+                "(list.remove / `in` with user-defined __eq__) are NOT proved: bounded stand-in over all populations of <= 3 "
+                "(thorough: 4) stand-in chromosomes with fitness in {0,1,2}^2; rank selection in IEEE doubles is sampled on a "
+                "grid (bounded, not exhaustive); 'never prefers a worse rank' is checked only as monotonicity of the index in "
+                "the random value on that grid; the else-branch of compute_ranking_assignment (first front already fills the "
+                "population) puts all remaining solutions into one front by design and is excluded from 'later fronts are "
+                "non-dominated sets'.",
+    },
     "C12": {
         "category": "proof",
         "text": "Unbounded proof, per function, of the cache invariant 'changed flag up, or every cached value equals F/COV of "
